@@ -26,7 +26,7 @@ RULE = ("generating parameters drawn from the stated family (base load 5-50, slo
 ASSUMPTIONS = ["normalised RMSE = RMSE(prediction - generating curve) / mean(generating curve) over the days with a prediction (billing: over complete calendar months, the resolution the building is billed at)",
                "the second weather year is a fresh draw with another mean / amplitude / noise, same timezone",
                "billing: the monthly-billed baseline is predicted on daily reporting data (the model is a daily curve)"]
-REQUIRED_REACH = {"fit.accepted": 12, "clause.baseline_nrmse": 12, "clause.second_year_nrmse": 12, "clause.absent_load": 6}
+REQUIRED_REACH = {"fit.accepted": 12, "clause.baseline_nrmse": 12, "clause.second_year_nrmse": 12, "clause.absent_load": 6, "fit.steep_single_corner": 10}
 
 VIOL = []
 
@@ -44,11 +44,13 @@ def curve(T, p):
     return y
 
 
-def draw(rng, kind, idx):
+def draw(rng, kind, idx, steep=False):
     for attempt in range(50):
         T = np.round(daily_weather(rng, idx), 2)
         p = dict(kind=kind, base=float(rng.uniform(5, 50)), hb=float(rng.uniform(45, 58)), hs=float(rng.uniform(0.3, 3)),
                  cb=float(rng.uniform(64, 75)), cs=float(rng.uniform(0.3, 3)))
+        if steep:      # corner of the stated family: small base load, steep slope (weather-driven building)
+            p.update(base=float(rng.uniform(5, 12)), hs=float(rng.uniform(1.5, 3)), cs=float(rng.uniform(1.5, 3)))
         ok = True
         if kind in ("both", "heating"):
             ok &= (T < p["hb"]).sum() >= 30 and p["hb"] - T.min() >= 5 and T.max() - p["hb"] >= 5
@@ -69,8 +71,12 @@ def gen_cases(tier, seed):
     q = tier == "quick"
     n = 28 if q else 600
     zones = ["America/Chicago", "UTC", "Australia/Sydney", "Europe/London", "Asia/Kolkata", "America/Los_Angeles"]
-    return [dict(kind="fit", profile=["current", "legacy", "billing", "current"][i % 4], usage=["both", "heating", "cooling", "flat"][(i // 4) % 4 if i >= 4 else i % 4],
-                 tz=zones[i % len(zones)], n=i, timeout=2400) for i in range(n)]
+    cases = [dict(kind="fit", profile=["current", "legacy", "billing", "current"][i % 4], usage=["both", "heating", "cooling", "flat"][(i // 4) % 4 if i >= 4 else i % 4],
+                  tz=zones[i % len(zones)], n=i, timeout=2400) for i in range(n)]
+    ns = 24 if q else 300
+    cases += [dict(kind="fit", profile=["current", "current", "legacy"][i % 3], usage=["heating", "cooling", "both"][(i // 3) % 3], tz=zones[i % len(zones)], steep=True,
+                   n=100000 + i, timeout=2400) for i in range(ns)]
+    return cases
 
 
 def run_case(spec):
@@ -81,7 +87,7 @@ def run_case(spec):
     tz, kind, prof = spec["tz"], spec["usage"], spec["profile"]
     start = pd.Timestamp("2018-01-01") + pd.Timedelta(days=int(rng.integers(0, 365)))
     idx = pd.date_range(start.tz_localize(tz), periods=365, freq="D")
-    T, p, rejected = draw(rng, kind, idx)
+    T, p, rejected = draw(rng, kind, idx, steep=bool(spec.get("steep")))
     I.reach("generator.rejected_draws", rejected)
     if T is None:
         return dict(viol=[], reach=I.take_reach(), keys=[], hist={"accepted": "no"}, events=0)
@@ -183,5 +189,7 @@ def run_case(spec):
     n2 = evaluate(T2, idx2, "second_year")
     if kind != "flat":
         keys.add("%s|%s|%s|%.0f|%.1f|%.1f|%.0f|%.0f" % (prof, kind, tz, p["base"], p["hs"], p["cs"], p["hb"], p["cb"]))
+    if spec.get("steep"):
+        I.reach("fit.steep_single_corner")
     hist = {"nrmse_baseline": "%.0e" % max(n1, 1e-9), "nrmse_second_year": "%.0e" % max(n2, 1e-9), "split": m.best_combination, "profile/kind": prof + "/" + kind}
     return dict(viol=[dict(v) for v in VIOL], reach=I.take_reach(), keys=sorted(keys), hist=hist, events=3)
